@@ -539,9 +539,30 @@ def subst_sym(s, env):
         return ("len", s[1], tuple(subst_index(i, env) for i in s[2]))
     if k in ("const", "param", "opaque"):
         return s
+    if k == "opq":
+        return ("opq", s[1], s[2], tuple(_subst_tokname(t, env) for t in s[3]))
     if k == "lenterm":
         return ("lenterm", _subst_lenterm(s[1], env))
     return (k,) + tuple(subst_sym(a, env) if isinstance(a, tuple) else a for a in s[1:])
+
+
+def _subst_tokname(t, env):
+    r = env.get(t)
+    if r is None:
+        return t
+    if r[0] == "v":
+        return r[1]
+    return "*"
+
+
+def has_opq(s, depth: int = 0) -> bool:
+    if s is None or not isinstance(s, tuple) or depth > 80:
+        return False
+    if s and s[0] == "opq":
+        return True
+    if s and s[0] in ("in", "rd", "elem", "const", "param", "lenterm", "len", "idx", "opq"):
+        return False
+    return any(has_opq(a, depth + 1) for a in s[1:] if isinstance(a, tuple))
 
 
 def val_index_vars(v: Val, out: set) -> None:
@@ -605,6 +626,9 @@ def sym_index_vars(s, out: set) -> None:
             index_vars(i, out)
     elif k in ("const", "param", "opaque", "lenterm"):
         return
+    elif k == "opq":
+        for t in s[3]:
+            out.add(t)
     else:
         for a in s[1:]:
             if isinstance(a, tuple):
@@ -857,7 +881,7 @@ def map_sym_indices(s, fn):
         return ("len", s[1], tuple(map_index_term(i, fn) for i in s[2]))
     if k == "lenterm":
         return ("lenterm", _map_lenterm(s[1], fn))
-    if k in ("const", "param", "opaque"):
+    if k in ("const", "param", "opaque", "opq"):
         return s
     return (k,) + tuple(map_sym_indices(a, fn) if isinstance(a, tuple) else a for a in s[1:])
 
